@@ -6,8 +6,9 @@ Open Scope Z_scope.
     its system-call trace; any crash image of the disk at that point (un-synced writes lost,
     kept or torn at byte granularity): [open] returns the last commit whose [commit] call
     completed, or the commit whose root record was being written, or — only when no commit
-    had completed — an error; and every item appended below the recovered frontier reads
-    back exactly, inside the file. *)
+    had completed — an error; every item appended below the recovered frontier reads back
+    exactly, inside the file; and no item straddles the frontier (whatever was appended
+    after the recovered commit lies wholly beyond it). *)
 Theorem crash_recovery :
   forall sip : list N -> N, (forall l, (sip l <= u64_max)%N) -> crash_recovery_stmt sip.
 Proof. exact crash_recovery_proof. Qed.
@@ -25,6 +26,8 @@ Check crash_recovery :
       /\ FREE_START <= free_offset r <= isize img'
       /\ (forall off bs, In (EAppended off bs) evs -> off + 4 + zlen bs <= free_offset r ->
             FREE_START <= off /\ read img' off (4 + zlen bs) = Some (be32_bytes (zlen bs) ++ bs))
+      /\ (forall off bs, In (EAppended off bs) evs ->
+            off + 4 + zlen bs <= free_offset r \/ free_offset r <= off)
     end.
 Print Assumptions crash_recovery.
 
@@ -52,3 +55,30 @@ Check recovery_composes :
   forall sip : list N -> N, (forall l, (sip l <= u64_max)%N) ->
   forall s, reachable_start sip s -> start_ok sip s.
 Print Assumptions recovery_composes.
+
+(** Barrier ordering: whenever the write of a root record begins, nothing is pending — all
+    data appended before (in particular everything the new root references) is durable. *)
+Theorem data_before_root :
+  forall sip : list N -> N, (forall l, (sip l <= u64_max)%N) -> data_before_root_stmt sip.
+Proof. exact data_before_root_proof. Qed.
+Check data_before_root :
+  forall sip : list N -> N, (forall l, (sip l <= u64_max)%N) ->
+  forall (s : start) (ops : list op) pre r rest,
+    start_ok sip s -> Forall op_typed ops -> tear_free sip s ops ->
+    epoch_events sip s ops = pre ++ ERootBegin r :: rest ->
+    pnd (disk_after (start_image s) pre) = [].
+Print Assumptions data_before_root.
+
+(** Non-vacuity: a concrete checksum and three-commit workload satisfying every hypothesis
+    ([tear_free] decided by enumerating all bytewise mixes of every root-record write). *)
+From Aranya Require Import proofs.CrashExample.
+Check crash_recovery_hypotheses_satisfiable :
+  (forall l, (toy_sip l <= u64_max)%N)
+  /\ Forall op_typed example_ops
+  /\ tear_free toy_sip Fresh example_ops
+  /\ map (fun r => (generation r, free_offset r))
+         (flat_map (fun e => match e with ECommitted r => [r] | _ => [] end) (epoch_events toy_sip Fresh example_ops))
+     = [(1%N, 12301); (2%N, 12310); (3%N, 12315)]
+  /\ flat_map (fun e => match e with ESys (SPwrite off _) => if off <? FREE_START then [off] else [] | _ => [] end)
+              (epoch_events toy_sip Fresh example_ops)
+     = [4096; 4100; 8192; 8196; 4096; 4100].
